@@ -66,6 +66,8 @@ NoRegs == [cmd |-> "", ow |-> FALSE, sov |-> 0, t |-> 0, rootCert |-> NoCert, ne
            newName |-> "", oldName |-> "", pending |-> {}, failed |-> FALSE, mutPrimary |-> ""]
 
 Ev(op, a, out) == [op |-> op, arg |-> a, out |-> out]
+\* command parameters as logged by the driver: "<ow|->,<serial flag>,<time>"
+Params(ow, n, t) == (IF ow THEN "ow" ELSE "-") \o "," \o ToString(n) \o "," \o ToString(t)
 Step(e) == ev' = e /\ hist' = Append(hist, e)
 
 EntryOf(m, n) == {e \in m.entries : e.kvn = n}
@@ -118,7 +120,7 @@ StartBootstrap(ow, ss, t) ==
   /\ ncmds' = ncmds + 1
   /\ regs' = [NoRegs EXCEPT !.cmd = "bootstrap", !.ow = ow, !.sov = ss, !.t = t]
   /\ pc' = "b_root"
-  /\ Step(Ev("Cmd", "bootstrap", IF ow THEN "ow" ELSE "-"))
+  /\ Step(Ev("Cmd", "bootstrap", Params(ow, ss, t)))
   /\ UNCHANGED <<live, gen, sman, spem, sobjs, naborts, issued, everRot, boots, lastRet, dirty>>
 
 \* CreateNewRootKey / CreateFirstSigningKey: refuse an existing key unless overwrite
@@ -227,7 +229,7 @@ StartRotate(sov, ow, t) ==
        THEN \* no primary certificate to succeed (or the model's bounds are exhausted): refused
             /\ sman.psign = "" \/ prev = NoCert
             /\ regs' = [NoRegs EXCEPT !.cmd = "rotate"] /\ pc' = "r_refused"
-            /\ Step(Ev("Cmd", "rotate", IF ow THEN "ow" ELSE "-"))
+            /\ Step(Ev("Cmd", "rotate", Params(ow, sov, t)))
             /\ UNCHANGED <<lastRet, dirty>>
        ELSE \* a serial that names another key version's certificate object is outside the model:
             \* with overwrite the operator asks for that certificate to be replaced
@@ -235,7 +237,7 @@ StartRotate(sov, ow, t) ==
             /\ regs' = [NoRegs EXCEPT !.cmd = "rotate", !.ow = ow, !.sov = serial, !.t = t,
                                      !.oldName = sman.psign, !.newName = KName(VerOf(sman.psign) + 1)]
             /\ pc' = "r_create"
-            /\ Step(Ev("Cmd", "rotate", IF ow THEN "ow" ELSE "-"))
+            /\ Step(Ev("Cmd", "rotate", Params(ow, sov, t)))
             /\ UNCHANGED <<lastRet, dirty>>
   /\ UNCHANGED <<live, gen, sman, spem, sobjs, naborts, issued, everRot, boots>>
 
@@ -323,10 +325,11 @@ Wipe(what) ==
 Endorse ==
   /\ pc = "idle" /\ Cardinality(issued) < MaxIssued
   /\ IF CanEndorse
-       THEN /\ issued' = issued \cup {[kname |-> sman.psign, kgen |-> live[sman.psign],
+       THEN /\ issued' = issued \cup {[n |-> Cardinality(issued) + 1, kname |-> sman.psign, kgen |-> live[sman.psign],
                                        cert |-> StoredCert(sman.psign), root |-> spem]}
             /\ Step(Ev("Endorse", sman.psign, "ok"))
-       ELSE /\ UNCHANGED issued
+       ELSE /\ ev.op # "Endorse"      \* a refused probe is not repeated back to back
+            /\ UNCHANGED issued
             /\ Step(Ev("Endorse", sman.psign, "err"))
   /\ UNCHANGED <<live, gen, sman, spem, sobjs, pc, regs, ncmds, naborts, everRot, boots, lastRet, dirty>>
 
@@ -404,4 +407,10 @@ C03_HealthyCanAlwaysEndorse == Healthy /\ pc = "idle" /\ naborts = 0 => CanEndor
 (***************************************************************************)
 Quiescent == pc = "idle" /\ (ncmds = MaxCmds \/ naborts = MaxAborts)
 Emit == Quiescent /\ ncmds = MaxCmds => PrintT(<<"VCASE", ToJson([hist |-> hist])>>)
+\* command + endorse histories (C03 replay)
+EmitIssue == pc = "idle" /\ ncmds = MaxCmds /\ Cardinality(issued) = MaxIssued =>
+  PrintT(<<"VCASE", ToJson([cmds |-> SelectSeq(hist, LAMBDA e : e.op \in {"Cmd", "Endorse", "Return"})])>>)
+\* command histories only (C12 replay): one record per history
+EmitCmds == pc = "idle" /\ ncmds = MaxCmds =>
+  PrintT(<<"VCASE", ToJson([cmds |-> SelectSeq(hist, LAMBDA e : e.op \in {"Cmd", "Wipe"})])>>)
 =============================================================================
